@@ -8,7 +8,7 @@ From F8 Require Import C26.SMap C26.PersistSpec C26.MemPersist.
 Import ListNotations.
 Local Open Scope N_scope.
 
-Definition MAX_MSG_LENGTH : N := 8192.      (* FIX8_MAX_MSG_LENGTH: char buff[...] in get *)
+(* MAX_MSG_LENGTH (PersistSpec.v) = FIX8_MAX_MSG_LENGTH: char buff[...] in get, the limit tested by put *)
 
 (* ---- the two files and the system calls ---- *)
 Record disk := { d_idx : list byte; d_dat : list byte }.
@@ -25,7 +25,6 @@ Definition write_at (file : list byte) (pos : N) (b : list byte) : list byte :=
   let p := N.to_nat pos in
   firstn p file ++ repeat 0 (p - length file) ++ b ++ skipn (p + length b) file.
 
-Definition len (l : list byte) : N := N.of_nat (length l).
 
 (* file positions of (_iod, _fod) *)
 Definition exec_sys (dp : disk * (N * N)) (s : sys) : disk * (N * N) :=
@@ -91,7 +90,7 @@ Definition file_fetch (dat : list byte) (p : prec) : fres :=
   else if avail =? sz then FBytes (firstn (N.to_nat sz) (skipn (N.to_nat off) dat))
   else FFail.
 
-(* the lseek/write calls of one operation, in program order *)
+(* the lseek/write calls of one operation, in program order (tree since a892b9a + a3cf082) *)
 Definition file_sys (st : fstate) (o : op) : list sys :=
   match o with
   | OCtlPut s t =>
@@ -102,10 +101,12 @@ Definition file_sys (st : fstate) (o : op) : list sys :=
     else match sfind seq (f_index st) with
          | Some _ => []
          | None =>
+           if MAX_MSG_LENGTH <? len what then []      (* what.size() > MaxMsgLen: refused *)
+           else
            (* lseek(_iod, 0, SEEK_END); offset = lseek(_fod, 0, SEEK_END);
-              write(_iod, &iprec, 16)  -- the INDEX record first --  write(_fod, what) *)
-           [SeekEnd Iod; SeekEnd Fod;
-            Write Iod (enc_iprec seq (len (d_dat (f_disk st)), len what)); Write Fod what]
+              write(_fod, what)  -- the record first --  write(_iod, &iprec, 16) *)
+           [SeekEnd Iod; SeekEnd Fod; Write Fod what;
+            Write Iod (enc_iprec seq (len (d_dat (f_disk st)), len what))]
          end
   | OGet seq =>
     if (seq =? 0) then []
@@ -114,6 +115,20 @@ Definition file_sys (st : fstate) (o : op) : list sys :=
          | None => []
          end
   | _ => []       (* the range get seeks once per record read; no effect on the files *)
+  end.
+
+(* the tree before a892b9a and a3cf082: index record written first, no length test *)
+Definition file_sys_orig (st : fstate) (o : op) : list sys :=
+  match o with
+  | OPut seq what =>
+    if (seq =? 0) then []
+    else match sfind seq (f_index st) with
+         | Some _ => []
+         | None =>
+           [SeekEnd Iod; SeekEnd Fod;
+            Write Iod (enc_iprec seq (len (d_dat (f_disk st)), len what)); Write Fod what]
+         end
+  | _ => file_sys st o
   end.
 
 (* the in-memory effect and the result of a completed operation.
@@ -133,6 +148,8 @@ Definition file_step (st : fstate) (o : op) : option (fstate * out) :=
     else match sfind seq (f_index st) with
          | Some _ => Some (st, RBool false)
          | None =>
+           if MAX_MSG_LENGTH <? len what then Some (st, RBool false)
+           else
            let '(ix, b) := sinsert seq (len (d_dat (f_disk st)), len what) (f_index st) in
            Some ({| f_index := ix; f_disk := d' |}, RBool b)
          end
@@ -181,6 +198,30 @@ Fixpoint file_run (st : fstate) (ops : list op) : option (list out) :=
 
 Definition file_outputs (ops : list op) : option (list out) := file_run file_empty ops.
 
+(* the tree before a892b9a and a3cf082 (for the _orig_refuted witnesses) *)
+Definition file_step_orig (st : fstate) (o : op) : option (fstate * out) :=
+  match o with
+  | OPut seq what =>
+    if seq =? 0 then Some (st, RBool false)
+    else match sfind seq (f_index st) with
+         | Some _ => Some (st, RBool false)
+         | None =>
+           let '(ix, b) := sinsert seq (len (d_dat (f_disk st)), len what) (f_index st) in
+           Some ({| f_index := ix; f_disk := exec_all (f_disk st) (file_sys_orig st o) |}, RBool b)
+         end
+  | _ => file_step st o
+  end.
+Fixpoint file_run_orig (st : fstate) (ops : list op) : option (list out) :=
+  match ops with
+  | [] => Some []
+  | o :: r =>
+    match file_step_orig st o with
+    | None => None
+    | Some (st', x) => match file_run_orig st' r with None => None | Some xs => Some (x :: xs) end
+    end
+  end.
+Definition file_outputs_orig (ops : list op) : option (list out) := file_run_orig file_empty ops.
+
 (* ---- hypotheses of the refinement theorems, as executable predicates on the operations ---- *)
 (* numbers below 2^31, records of at most MaxMsgLen bytes, fewer than 2^31 operations *)
 Definition op_wf (o : op) : bool :=
@@ -194,7 +235,7 @@ Definition ops_wf (ops : list op) : bool :=
 Inductive slot0 := SVirgin | SCtl | SMsg | SLost.
 Definition slot_step (m : slot0) (o : op) : slot0 :=
   match m, o with
-  | SVirgin, OPut seq _ => if seq =? 0 then SVirgin else SMsg
+  | SVirgin, OPut seq b => if (seq =? 0) || (MAX_MSG_LENGTH <? len b) then SVirgin else SMsg
   | SVirgin, OCtlPut _ _ => SCtl
   | SMsg, OCtlPut _ _ => SLost
   | _, _ => m
